@@ -1022,7 +1022,7 @@ def _URIProd(parent, nextSor=False, toStore=None):
     )
 
 
-reHexcolor = re.compile(r'^\#(?:[0-9abcdefABCDEF]{3}|[0-9abcdefABCDEF]{6})$')
+reHexcolor = re.compile(r'^\#(?:[0-9abcdefABCDEF]{3}|[0-9abcdefABCDEF]{6})\Z')
 
 
 def _ColorProd(parent, nextSor=False, toStore=None):
